@@ -229,7 +229,9 @@ pub fn emit_enum(out: &mut Out, e: &EnumDecl, tags: &[String], variant_schema_ov
             let _ = writeln!(out.items, "    {a}");
         }
         if v.transient {
-            let _ = writeln!(out.items, "    #[transient]");
+            // the marker in both spellings the macro accepts on a constructor
+            let spelled = if refmodel::rng::fnv64_str(&format!("{name}/{}/transient", v.record.name)) % 3 == 0 { "#[transient()]" } else { "#[transient]" };
+            let _ = writeln!(out.items, "    {spelled}");
         }
         if let Some(a) = inert(&format!("{name}/{}/mid", v.record.name)) {
             let _ = writeln!(out.items, "    {a}");
